@@ -8,6 +8,10 @@ FAULT_LINES = {
     "lex": ["def q9 := 1 ! 2", "def q9 := 3 $ 4", "def q9 := 1 ~ 2"],
     "syntax": ["def := 3", "def q9 := )", "if then else", "def q9 := (1 + ", "class 7"],
     "type": ["def q9: Int := \"text\"", "def q9: Str := 5", "print(undefined_name_q9)", "def q9 := 1 + \"s\"", "q8 := 3"],
+    # faults whose construct (and hence the reported position or a cause) spans several lines
+    "type-multiline": ["def q9: Int := if 1 < 2 then\n    1\nelse\n    \"text\"", "def q9: Str := match 3\n    1 => \"a\"\n    _ => 5",
+                       "def q7(x9: Int) -> Int =>\n    print(x9)\n    \"s\"", "if 1 < 2 then\n    def q6: Int := 1\n    q6 := \"s\"\nelse\n    print(2)",
+                       "def q5 := [1,\n    2] + 3", "class Q4\n    def f4: Int := 1\n    def m4(self) -> Str =>\n        self.f4\ndef q3 := Q4()"],
 }
 
 
@@ -21,8 +25,8 @@ def inject(rng, text):
     i = rng.choice(cands)
     kind = rng.choice(list(FAULT_LINES))
     fault = rng.choice(FAULT_LINES[kind])
-    lines.insert(i, fault)
-    return "\n".join(lines) + "\n", i + 1, kind, fault
+    lines[i:i] = fault.split("\n")
+    return "\n".join(lines) + "\n", (i + 1, i + fault.count("\n") + 1), kind, fault
 
 
 LOC = re.compile(r" ──→ (\S+?)(?::(\d+):(\d+))?\n")
@@ -81,7 +85,7 @@ def run(chk):
     base = rng.sample(base, min(len(base), 40 if thorough else 12)) + [gen_prog.Gen(rng).program().text for _ in range(60 if thorough else 10)]
     cases = []
     for t in base:
-        for _ in range(4 if thorough else 3):
+        for _ in range(6 if thorough else 4):
             try:
                 cases.append(inject(rng, t))
             except IndexError:
@@ -111,14 +115,14 @@ def run(chk):
                         l, c = int(l), int(c)
                         if not (1 <= l <= len(lines)) or c < 1 or c > len(lines[l - 1]) + 2:
                             why = why or "position %d:%d lies outside the file's text" % (l, c)
-                        on_line = on_line or l == line
+                        on_line = on_line or line[0] <= l <= line[1]
                 for q in QUOTED.finditer(m):
                     n, quoted = int(q.group(1)), q.group(2)
                     if not (1 <= n <= len(lines)) or lines[n - 1].rstrip("\r") != quoted:
                         why = why or "quoted line %d %r is not the line of the source" % (n, quoted)
-                    on_line = on_line or n == line
+                    on_line = on_line or line[0] <= n <= line[1]
             if why is None and not on_line:
-                why = "no reported position is on the faulty line %d (%s fault %r)" % (line, kind, fault)
+                why = "no reported position is on the faulty lines %d-%d (%s fault %r)" % (line[0], line[1], kind, fault)
             if why is None:
                 stats["localised"] += 1
         if why:
@@ -126,8 +130,8 @@ def run(chk):
             if f:
                 chk.report_known(f, why)
             elif len(chk.violations) < 6:
-                chk.violation("input", why, case={"kind": "prog", "text": text, "fault_line": line, "fault": fault}, actual=(r[0][1][0][:1500] if r[0][0] == "err" else r[0][1]))
-    chk.sample({"fault": cases[0][3], "line": cases[0][1], "diagnostic": (res[0][0][1][0][:300] if res[0][0][0] == "err" else res[0][0][0])})
+                chk.violation("input", why, case={"kind": "prog", "text": text, "fault_lines": list(line), "fault": fault}, actual=(r[0][1][0][:1500] if r[0][0] == "err" else r[0][1]))
+    chk.sample({"fault": cases[0][3], "lines": list(cases[0][1]), "diagnostic": (res[0][0][1][0][:300] if res[0][0][0] == "err" else res[0][0][0])})
     chk.cov["oracle"] = {"spec": "every rejection: non-empty diagnostics, path of the file, positions inside the text, quoted lines verbatim, and some position on the line of the injected fault",
                          "mutants": len(cases), "stats": stats}
     chk.cov["evaluations"] = len(reqs) + len(cases)
